@@ -375,13 +375,23 @@ func nonZero(v ssa.Value, use ssa.Instruction, d int) (bool, string) {
 			if len(rets) == 0 {
 				return false, "helper never returns"
 			}
+			base := 0
 			for _, r := range rets {
 				if len(r.Results) != 1 {
 					return false, "helper with several results"
 				}
+				// a retry written as a tail call of the helper itself yields what the helper yields (induction on the
+				// other returns)
+				if rc, ok := ir.ReturnOperand(r, 0).(*ssa.Call); ok && rc.Common().StaticCallee() == f {
+					continue
+				}
+				base++
 				if ok, why := nonZero(ir.ReturnOperand(r, 0), r, d+1); !ok {
 					return false, "helper " + f.Name() + ": " + why
 				}
+			}
+			if base == 0 {
+				return false, "helper " + f.Name() + " only ever returns its own result"
 			}
 			return true, "every return of helper " + f.Name() + " is non-zero"
 		}
